@@ -22,6 +22,14 @@ def replay(ctx, spec, res, path):
     spec["explore"](ctx, res, replay_ops=ops)
 
 
+def _gen_late(which, fname):
+    """gen_table is defined further down; resolve it at call time (same key, so setup.sh regenerates once)"""
+    def g(ctx):
+        return gen_table(which, fname)(ctx)
+    g.key = which
+    return g
+
+
 def n_for(ctx, quick, thorough):
     return quick if ctx.tier == "quick" else thorough
 
@@ -57,15 +65,25 @@ def _cdrfile_common(ctx, res, replay_ops, want_spec):
                               "or has another length than the format prescribes" % ("C15" if want_spec else "C14", t[2], t[3]),
                               [op, "# impl:  " + im[:300], "# model: " + mo[:300]])
             continue
-        if kind != "rt":
+        if kind not in ("rt", "over", "rewrite"):
             # outside the property's domain (non-well-formed structures, damaged files):
             # model fidelity is reported, it does not decide the property
             agree = (im == mo) or (kind == "dec" and mo == "panic")
             res.outside_domain[kind + (":agree" if agree else ":differ")] += 1
             continue
         res.evaluations += 1
-        res.dist["rt"] += 1
-        ftoks = t[2:]
+        res.dist[kind] += 1
+        # the structure written last; `over`: the destination held other content before, `rewrite`: another file
+        # written by the same code
+        if kind == "rt":
+            ftoks = t[2:]
+        elif kind == "over":
+            ftoks = t[5:]
+            res.dist["destination:" + ("absent" if t[3] == "-" else "exists")] += 1
+        else:
+            ftoks = t[t.index("|") + 1:]
+        if kind != "rt":
+            res.nontrivial.add(op)
         nrec = int(ftoks[31])
         res.dist["records=%d" % min(nrec, 3)] += 1
         res.dist["high7" if ftoks[2] == "7" else "high<7"] += 1
@@ -93,17 +111,23 @@ def _cdrfile_common(ctx, res, replay_ops, want_spec):
         out = core.driver_run(spec_q)
         for i, o in zip(spec_idx, out):
             res.traces_validated += 1
-            ftoks = r.ops[i].split()[2:]
+            tt = r.ops[i].split()
+            ftoks = tt[2:] if tt[1] == "rt" else tt[5:] if tt[1] == "over" else tt[tt.index("|") + 1:]
             ot = o.split()
             if not (ot and ot[0] == "ok" and ot[1:] == ftoks):
+                how = {"rt": "", "over": " (the destination file existed before with other content)",
+                       "rewrite": " (the destination had been written by Encoding before, with another file)"}[tt[1]]
                 res.violation("layout", "independent TS 32.297 reader does not recover the structure from the "
-                              "bytes written by Encoding", [r.ops[i], "# impl bytes: " + spec_q[spec_idx.index(i)][:2000],
+                              "bytes written by Encoding" + how, [r.ops[i], "# impl bytes: " + spec_q[spec_idx.index(i)][:2000],
                                                             "# spec reader: " + o[:2000]])
     res.exhaustive = False
     res.extra["exhaustive_subspace"] = "all 64 (high,low) release-identifier pairs, each with extension octets iff 7"
     res.rule = ("well-formed CDRFile structures generated from the Go types (all 64 identifier pairs first, then "
                 "seeded random: field values at 0/max/random within TS 32.297 widths, filter/extension lengths "
-                "0,1,255..257,<40 (thorough: 65485..65535), 0-5 records); an input is non-trivial when it has "
+                "0,1,255..257,<40 (thorough: 65485..65535), 0-5 records); destinations that already exist: 48 files written over "
+                "other content (absent, 0, 1, len-1, len, len+1, len+54, 2len+100, len+4096, random, 70000 octets; permission bits "
+                "600/644/660/666) and 24 pairs of files written one after the other to the same path (longer first / shorter first), "
+                "the whole file on disk is read back (thorough: 400 + 200); an input is non-trivial when it has "
                 "records, an extension octet or a routeing filter; distinct = distinct operation lines")
 
 
@@ -115,10 +139,12 @@ def explore_c15(ctx, res, replay_ops=None):
     _cdrfile_common(ctx, res, replay_ops, want_spec=True)
 
 
-PROPS["C14"] = dict(lean=["ChfVerif.Props.C14"], explore=explore_c14,
-                    trusted=["os.WriteFile/os.ReadFile, encoding/binary (modelled)"])
-PROPS["C15"] = dict(lean=["ChfVerif.Props.C15"], explore=explore_c15,
-                    trusted=["Spec/TS32297.lean is my transcription of TS 32.297 clause 6.1 as restated in C15",
+PROPS["C14"] = dict(lean=["ChfVerif.Props.C14"], explore=explore_c14, gen=[_gen_late("cdrfile", "CdrFileFacts.lean")],
+                    trusted=["os.WriteFile/os.ReadFile, encoding/binary (modelled; how the destination is opened is regenerated by go/ast: "
+                             "harness/cmd/cdrfilefacts.go)"])
+PROPS["C15"] = dict(lean=["ChfVerif.Props.C15"], explore=explore_c15, gen=[_gen_late("cdrfile", "CdrFileFacts.lean")],
+                    trusted=["the file system is modelled (Model/CdrFile.lean writeOver); how Encoding opens its destination is regenerated "
+                             "by go/ast (harness/cmd/cdrfilefacts.go)","Spec/TS32297.lean is my transcription of TS 32.297 clause 6.1 as restated in C15",
                              "os.WriteFile, encoding/binary (modelled)"])
 
 
@@ -1010,44 +1036,86 @@ def gen_table(which, fname):
 # ------------------------------------------------------------------ C13
 
 def explore_c13(ctx, res, replay_ops=None):
-    r = ctx.stream("auth", 0, ops=replay_ops, with_model=False)
+    r = ctx.stream("auth", 0, ops=replay_ops)
     lists = set()
-    for i, (op, im) in enumerate(zip(r.ops, r.impl)):
+    valid_seen = {}      # service list -> the valid-token probes so far (the history a near miss is judged after)
+    accepted_valid = 0
+    for i, (op, im, mo) in enumerate(zip(r.ops, r.impl, r.model)):
         t = op.split()
+        if t[1] != "probe":
+            continue
+        if im == "n/a":
+            res.outside_domain["near-miss-does-not-exist"] += 1
+            continue
         res.evaluations += 1
         lists.add(t[2])
-        res.dist["token:" + t[5]] += 1
+        kind = t[5]
+        rctx = t[6] if len(t) > 6 else "live"
+        res.dist["token:" + kind] += 1
+        res.dist["context:" + rctx] += 1
         res.nontrivial.add(" ".join(t[2:5]))
         m = re.match(r"status=(\d+) pool=(\d+)>(\d+)", im)
         res.traces_validated += 1
+        # the replay of a probe is the probe after the valid tokens its service list has seen (order matters)
+        hist = valid_seen.setdefault(t[2], [])
+        rep = hist[-40:] + [op]
         if not m:
-            res.violation("oracle", "C13: probe crashed: " + im, [op])
+            res.violation("oracle", "C13: probe crashed: " + im, rep)
             continue
         st, b, a = int(m.group(1)), int(m.group(2)), int(m.group(3))
         path = bytes.fromhex(t[4]).decode()
         registered = not (path in ("/", "/chargingdata"))
+        mm = re.match(r"status=(\d+) handler=([01])$", mo)
+        if kind == "valid":
+            # a token signed by the NRF key: nothing is required of the answer; it is the history of what follows
+            hist.append(op)
+            res.dist["valid-token:status=%d" % st] += 1
+            if st != 401:
+                accepted_valid += 1
+            if mm and mm.group(2) == "1" and st == 401:
+                res.disagreements += 1
+                res.violation("correspondence", "auth: the router model lets a request with a token signed by the NRF key through, "
+                              "the implementation answered 401", rep + ["# impl: " + im, "# model: " + mo], found_input=False)
+            continue
+        after = "" if not hist else " after %d requests with a valid token had been served" % len(hist)
+        what = "token kind '%s'%s%s" % (kind, "" if rctx == "live" else ", request context " + rctx, after)
+        if not mm or (registered and (mm.group(1), mm.group(2)) != ("401", "0")) or (not registered and mm.group(2) != "0"):
+            res.disagreements += 1
+            res.violation("correspondence", "auth: the router model (regenerated paths of Check / AuthorizationCheck) does not reject "
+                          "a request with %s: %s" % (what, mo), rep + ["# impl: " + im, "# model: " + mo], found_input=False)
         if registered and st != 401:
-            res.violation("oracle", "C13: %s %s answered %d to a request with token kind '%s' (services %s)" % (
-                t[3], path, st, t[5], t[2]), [op, "# impl: " + im])
+            res.violation("oracle", "C13: %s %s answered %d to a request with %s (services %s)" % (
+                t[3], path, st, what, t[2]), rep + ["# impl: " + im])
         if not registered and st // 100 == 2:
-            res.violation("oracle", "C13: unregistered path %s answered %d" % (path, st), [op, "# impl: " + im])
+            res.violation("oracle", "C13: unregistered path %s answered %d" % (path, st), rep + ["# impl: " + im])
         if a != b:
-            res.violation("oracle", "C13: an unauthenticated request changed the subscriber pool", [op, "# impl: " + im])
+            res.violation("oracle", "C13: an unauthenticated request changed the subscriber pool", rep + ["# impl: " + im])
+        if " state-same=0" in im:
+            res.violation("oracle", "C13: a request with %s was processed: the charging state (subscribers, sessions, records, accounts, "
+                          "notifications) differs after it" % what, rep + ["# impl: " + im])
         if registered and st == 401 and " one=0" in im:
             res.violation("oracle", "C13: the 401 answer is not a single problem document: something ran after the rejection and wrote to the response",
-                          [op, "# impl: " + im])
-        res.sample({"op": op, "impl": im})
+                          rep + ["# impl: " + im])
+        res.sample({"op": op, "impl": im, "model": mo})
     res.exhaustive = True
     res.extra["service_lists"] = len(lists)
+    res.extra["valid_tokens_accepted"] = accepted_valid
     res.rule = ("exhaustive: every route gin registered for each of the 16 ordered lists of distinct service names x 13 token kinds "
                 "(absent, garbage, 'Bearer' garbage, alg=none JWT, HS256 JWT, RS512 JWT signed by another key, Basic, another scheme, lower-case bearer, three words; three of them also with no NRF certificate configured), OAuth2Required=true, "
-                "NRF certificate generated at run time; expects 401 and an unchanged subscriber pool; distinct = (services, method, path)")
+                "NRF certificate generated at run time; request contexts live / cancelled / past their deadline before the router sees the request; "
+                "histories: on every route a token signed by the NRF key first, then its 10 near misses (letter case of one letter of the signature, "
+                "claims or JOSE header changed, whole header lower-/upper-cased, signature truncated / one character replaced / dropped, lower-case scheme), "
+                "then all near misses on all routes again; expects 401, an unchanged subscriber pool and an unchanged digest of the whole charging state "
+                "from every request whose token is not signed by the NRF key, whatever was accepted before; the Lean router model "
+                "(regenerated control-flow paths of Check and AuthorizationCheck, every adversary, every feasible path) must predict the same; "
+                "distinct = (services, method, path)")
 
 
 PROPS["C13"] = dict(lean=["ChfVerif.Props.C13"], explore=explore_c13, gen=[gen_table("routes", "Routes.lean")],
                     trusted=["gin group/middleware/Abort semantics are modelled (Model/Router.lean)",
-                             "free5gc/openapi oauth.VerifyOAuth is abstracted as a predicate on tokens (probed with 6 kinds of bad token)",
-                             "the go/ast extractor in harness/cmd/routes.go (syntactic facts of newRouter) and gin's reported chain lengths"])
+                             "free5gc/openapi oauth.VerifyOAuth is abstracted as a predicate on tokens (probed with 13 kinds of bad token and 10 near misses of a valid one)",
+                             "the go/ast extractors in harness/cmd/routes.go (syntactic facts of newRouter) and harness/cmd/authast.go "
+                             "(control-flow paths of RouterAuthorizationCheck.Check and CHFContext.AuthorizationCheck), gin's reported chain lengths"])
 
 
 # ------------------------------------------------------------------ C17
@@ -1121,6 +1189,8 @@ def explore_c20(ctx, res, replay_ops=None):
         res.dist["removed=%d" % min(removed, 3)] += 1
         res.dist["scheme=" + t[3]] += 1
         res.dist["impl:" + im] += 1
+        for o in t[5:]:
+            res.dist["value:" + o] += 1
         res.nontrivial.add(op)
         if len(res.samples) < 5:
             res.sample({"op": op, "impl": im, "model": mo})
@@ -1139,17 +1209,21 @@ def explore_c20(ctx, res, replay_ops=None):
         if bad and im != "rejected":
             res.violation("oracle", "C20: configuration with scheme=%s services=%s was not rejected" % (t[3], t[4]), [op, "# impl: " + im])
     res.extra["exhaustive_subspace"] = "baseline, all single and all pairwise removals of 20 items x {http, https}" + (
-        ", all triples" if ctx.tier == "thorough" else "")
+        ", all triples" if ctx.tier == "thorough" else "") + (
+        "; baseline and all single removals under each of 7 value settings (Diameter protocol sctp / udp / absent for either "
+        "section, CGF enabled, all together), all pairs for the combined setting" + (" (thorough: for each)" if ctx.tier == "thorough" else ""))
     res.rule = ("YAML configurations derived from a valid baseline by removing subsets of 20 items (sections, TLS blocks, mandatory "
                 "scalars) and altering scheme (http/https/ftp/HTTP/absent) and serviceNameList (one/two/all three known names, a known name "
-                "twice, unknown names, empty); each is read by "
-                "factory.ReadConfig in its own process and, if accepted, the context, rating and account servers, the application "
-                "(SBI server) and the SBI listener are started; a panic in any goroutine kills the child = crash; distinct = variants")
+                "twice, unknown names, empty), the protocol of either Diameter section (tcp/sctp/udp/absent) and cgf.enable; each is read by "
+                "factory.ReadConfig in its own process and, if accepted, the CGF (when enabled), the context, rating and account servers, "
+                "the application (SBI server) and the SBI listener are started as pkg/service Start does; a panic in any goroutine kills "
+                "the child = crash; distinct = variants")
 
 
 PROPS["C20"] = dict(lean=["ChfVerif.Props.C20"], explore=explore_c20, gen=[gen_table("config", "Config.lean")],
                     trusted=["govalidator semantics (required/optional recursion) and yaml.v2 are modelled",
-                             "NRF registration and the FTP (CGF) server are not started (cgf.enable=false); MongoDB is the in-memory stand-in",
+                             "NRF registration is not started; the FTP (CGF) server is started only in the variants with cgf.enable=true (its login to the "
+                             "remote FTP host fails and is retried in the background); MongoDB is the in-memory stand-in",
                              "which sections the start-up code dereferences is hand-modelled (startsOK) and validated by starting every accepted variant"])
 
 
@@ -1601,12 +1675,22 @@ def _explore_peer(ctx, res, replay_ops, which):
         res.evaluations += 1
         kind = "count" if any(x.startswith("N") for x in steps) else "faults"
         res.dist["scenario:" + kind] += 1
+        quiet = True       # no answer later than the client's timeout, no relay: every socket must be gone at a C step
         for x in steps:
             if x[0] == "D":
                 res.dist["answers-delivered-%s-times" % x[1:]] += 1
+                quiet = False
             if x[0] in "AR":
                 d = int(x[1:])
                 res.dist["%s-delay:%s" % (x[0], "prompt" if d < 5000 else "late" if d < 20000 else "lost")] += 1
+                if d >= 5000:
+                    quiet = False
+            if x[0] == "H":
+                d = int(x[2:])
+                res.dist["%s-connection-setup:%s" % (x[1], "<2s" if d < 2000 else "2-5s" if d < 5000 else ">5s")] += 1
+            if x[0] == "Q":
+                res.dist["stored-document:%s" % {"0": "quota-a-number", "1": "quota-missing", "2": "quota-not-numeric",
+                                                 "3": "unitCost-a-number", "4": "unitCost-missing", "9": "restored"}.get(x[1:], x[1:])] += 1
         if im.split(" ")[0] in ("crash", "panic", "timeout", "create-failed", "bad-op"):
             res.violation("oracle", "%s: scenario did not run (%s)" % (which, im[:100]), [op, "# impl: " + im[:300]])
             continue
@@ -1634,6 +1718,12 @@ def _explore_peer(ctx, res, replay_ops, which):
                     bad = "connections / background tasks left behind after completed requests: %s established, goroutine bucket %s" % (f[0], f[1])
                 elif len(f) > 4 and int(f[4]) > 0:
                     bad = "%s answer handler task(s) (HandleSUA/HandleCCA) left behind, blocked for ever, after the requests had returned" % f[4]
+                elif len(f) > 5 and int(f[5]) > 0:
+                    bad = ("%s request handler task(s) of the rating / account-balance server still running after every request had "
+                           "returned (not counting handlers the script keeps asleep)" % f[5])
+                elif len(f) > 6 and quiet and int(f[6]) > 0:
+                    bad = ("%s socket(s) on the Diameter ports still held by the process (any state but LISTEN) after every request "
+                           "had returned and every answer had been in time or would never come" % f[6])
                 elif len(f) > 3 and int(f[3]) > 0:
                     bad = ("%s go-diameter watchdog task(s) still running after every request had returned and every connection was closed "
                            "(one per request whose answer did not arrive within the timeout; %s goroutines above the baseline)" % (f[3], f[2]))
@@ -1657,7 +1747,12 @@ def _explore_peer(ctx, res, replay_ops, which):
                 "the 5 s timeout (6.5 s) or lost (40 s), followed at once / after 3 s / with a 2.5 s answer by further updates; random "
                 "patterns of prompt / 0.8 s / 2.5 s / late / lost answers, each answer delivered once, twice or three times (a relay in front "
                 "of the real servers repeats it); runs of timed-out requests followed by a count of go-diameter watchdog goroutines and of "
-                "answer handlers that have not returned. Every update must complete within 14 s and act only on the "
+                "answer handlers that have not returned; peers that accept the connection and take 0.3-6.5 s over the TLS handshake "
+                "(a TCP proxy in front of the servers holds the server's first octets back), for either client, alone, as the last "
+                "dial of an update, several in a row, and combined with answers that are in time by themselves but later than 5 s "
+                "after the dial began; stored account documents the servers cannot digest (quota / unitCost a number, missing, not "
+                "numeric), so that the server-side handler fails without answering: request handler tasks of the two servers and "
+                "sockets in any state are counted as well. Every update must complete within 14 s and act only on the "
                 "answer to its own account-balance request (identified by the amount: each request tops up by a distinct sum of powers "
                 "of two); observations are compared with the client machines of Model/DiamClient.lean (who answered, elapsed time within "
                 "%d ms, open connections)" % PEER_TOL_MS)
@@ -1682,7 +1777,8 @@ def explore_c19(ctx, res, replay_ops=None):
 
 
 _peer_trust = ["go-diameter (state machine, mux locking, connection teardown) is modelled from reading its source, not verified",
-               "the go/ast fact extractor harness/cmd/diamclient.go (defer conn.Close, channel made per request, select-default send)",
+               "the go/ast fact extractor harness/cmd/diamclient.go (defer conn.Close, channel made per request, select-default send, "
+               "synchronous dial: no go statement in the client function)",
                "real-time scenarios: delays keep 1.5 s clear of the 5 s timeout; the exact race is the model's business"]
 PROPS["C18"] = dict(lean=["ChfVerif.Props.C18"], explore=explore_c18, gen=[gen_table("diamclient", "DiamClient.lean")], trusted=_peer_trust)
 PROPS["C19"] = dict(lean=["ChfVerif.Props.C19"], explore=explore_c19, gen=[gen_table("diamclient", "DiamClient.lean")], trusted=_peer_trust)
